@@ -47,7 +47,12 @@ DQ_RULES = [
     Sub(r"\bnode\* (\w+) =", r"struct node *\1 =", None),
     Call0(r"\balloc_node", "alloc_node(self, {0}, {1}, {2}, 0, 0)"),     # default arguments ltag = 0, rtag = 0 spelled out
     Call0(r"\bdealloc_node", "dealloc_node(self, {0})"),
-    Call0(r"\bstabilize(_left|_right)?", "stabilize{h1}(self, &{0})"),
+    # `stabilize_x(v); return <literal>;` -- v is dead after the call, so the reference argument is lowered copy-in into a
+    # temporary declared at the call (CBMC's dfcc rejects any write to a loop-body local from a loop-exit block, even a
+    # legal one).  Every other call shape gets the plain by-address lowering below.
+    Sub(r"\bstabilize(_left|_right)?\((\w+)\);(\s*return\s+(?:true|false)\s*;)",
+        r"{ struct pair vx_ref = \2; stabilize\1(self, &vx_ref); }\3", None),
+    Call0(r"\bstabilize(_left|_right)?(?=\((?!self,))", "stabilize{h1}(self, &{0})"),
     Sub(r"\br = ", "*r = ", None),                                               # T& r  ->  T *r
 ]
 
